@@ -216,7 +216,7 @@ def run_extra(ctx, prop, spec, rep):
         direct_twin(ctx, rep)
     try:
         import ties_k1s
-        if 'struct' in k1 or 'forest' in k1:
+        if 'struct' in k1 or 'forest' in k1 or spec.get('k1s'):
             ties_k1s.tie_struct(ctx, prop, rep, forest=('forest' in k1))
     except ImportError:
         pass
